@@ -4,6 +4,7 @@ import (
 	"flag"
 	"fmt"
 	"os"
+	"path/filepath"
 	"sort"
 	"strings"
 	"sync"
@@ -73,6 +74,11 @@ func cmdVC(args []string) {
 		for _, wn := range vc.warnings {
 			fmt.Println("warning:", wn)
 		}
+		if *dump || os.Getenv("GOVC_LOOPS") != "" {
+			for _, l := range vc.loops {
+				fmt.Printf("loop %d at %s\n", l.Ordinal, w.fset.Position(l.MinPos))
+			}
+		}
 		if *dump {
 			fmt.Println(vc.e.header())
 			fmt.Println(strings.Join(vc.lines, "\n"))
@@ -92,7 +98,11 @@ func cmdVC(args []string) {
 			} else if o.ExpectSat && r.Status != "unsat" {
 				verdict = "inc"
 			}
-			fmt.Printf("%-4s %-60s %-8s %-10s %.2fs  %s\n", verdict, o.Name, r.Status, r.Solver, r.Time, trunc(o.Text, 70))
+			pos := ""
+			if verdict == "FAIL" && o.Pos.IsValid() {
+				pos = fmt.Sprintf(" @%s:%d", filepath.Base(o.Pos.Filename), o.Pos.Line)
+			}
+			fmt.Printf("%-4s %-60s %-8s %-10s %.2fs  %s%s\n", verdict, o.Name, r.Status, r.Solver, r.Time, trunc(o.Text, 70), pos)
 			if r.Status == "error" {
 				fmt.Println("     ", r.Output)
 			}
